@@ -75,7 +75,15 @@ func genC16(r *kernel.Rand, sc *kernel.Scenario, tier string, run int, exhaustiv
 		// longer than the 16-bit length prefix allows, 1: a balance above the
 		// 128-byte limit); the Send must fail and must not disturb the framing
 		// of what is sent before and after it on the same connection
-		sc.Faults = append(sc.Faults, kernel.St("badsend", "before", r.Intn(k+1), "kind", r.Intn(2)))
+		// other=1: the unencodable envelope is handed to ANOTHER connection of the
+		// same process; the connection under test must not notice at all
+		sc.Faults = append(sc.Faults, kernel.St("badsend", "before", r.Intn(k+1), "kind", r.Intn(2), "other", r.Intn(2)))
+	}
+	if r.Bool(0.35) {
+		// transient write errors: every single Write call of the stream (up to a
+		// cap, then sampled) fails once; a Send whose write failed must report it,
+		// and exactly the envelopes reported as sent must arrive
+		sc.Faults = append(sc.Faults, kernel.St("writeerr", "cap", 60, "seed", int64(r.Uint64()>>2)))
 	}
 	for ser := 0; ser < 2; ser++ {
 		sc.Faults = append(sc.Faults,
@@ -260,6 +268,15 @@ func (Engine) execC16(sc *kernel.Scenario, res *kernel.Result, trace bool) {
 						continue
 					}
 					res.Count("fault.unencodable-send", 1)
+					if f.Int("other") == 1 {
+						other := wirenet.NewIoConn(NewLink().A, serializers[ser])
+						if err := other.Send(bad); err == nil {
+							res.Fail(fi, "C16.unencodable-sent@"+serNames[ser], "an envelope that cannot be encoded was reported as sent")
+							return
+						}
+						res.Count("fault.unencodable-send-on-other-connection", 1)
+						continue // this connection is untouched: everything after must be sent and arrive
+					}
 					if err := conn.Send(bad); err == nil {
 						res.Fail(fi, "C16.unencodable-sent@"+serNames[ser], "an envelope that cannot be encoded was reported as sent")
 						return
@@ -312,6 +329,57 @@ func (Engine) execC16(sc *kernel.Scenario, res *kernel.Result, trace bool) {
 				res.Fail(i, "C16.roundtrip@"+serNames[ser]+"/"+path, "envelope %d (%s) differs from what was sent even without chunking: %s", i, v.label, detail)
 				logf("VIOLATION %s", res.Violation.Detail)
 				return
+			}
+		}
+		for fi := range sc.Faults {
+			f := &sc.Faults[fi]
+			if f.Op != "writeerr" || closedAfter >= 0 {
+				continue
+			}
+			total := len(writes)
+			idx := make([]int, 0, total)
+			for k := 1; k <= total; k++ {
+				idx = append(idx, k)
+			}
+			if c := int(f.Int("cap")); c > 0 && total > c {
+				rr := kernel.NewRand(uint64(f.Int("seed")))
+				for a := len(idx) - 1; a > 0; a-- {
+					b := rr.Intn(a + 1)
+					idx[a], idx[b] = idx[b], idx[a]
+				}
+				idx = idx[:c]
+			}
+			for _, k := range idx {
+				l2 := NewLink()
+				l2.A.FailWrite(k)
+				c2 := wirenet.NewIoConn(l2.A, serializers[ser])
+				var okIdx []int
+				sawErr := false
+				for i, v := range vals {
+					if err := c2.Send(v.v.(*wire.Envelope)); err != nil {
+						sawErr = true
+						continue // (a connection that gives up refuses the rest as well)
+					}
+					okIdx = append(okIdx, i)
+				}
+				res.Count("fault.write-error", 1)
+				res.Evals++
+				d2, w2 := l2.A.Sent()
+				if !sawErr {
+					res.Fail(fi, "C16.write-error-swallowed@"+serNames[ser], "write %d of %d failed, yet every Send reported success", k, total)
+					return
+				}
+				got, _, at, err, _ := recvAll(ser, d2, w2, Schedule{}, len(okIdx))
+				if err != nil {
+					res.Fail(fi, "C16.write-error-desync@"+serNames[ser], "write %d of %d failed once: envelope %d of the %d reported as sent cannot be decoded: %v", k, total, at, len(okIdx), err)
+					return
+				}
+				for j, i := range okIdx {
+					if !bytes.Equal(got[j], ref[i]) {
+						res.Fail(fi, "C16.write-error-desync@"+serNames[ser], "write %d of %d failed once: the %d-th envelope reported as sent arrives as a different envelope", k, total, j)
+						return
+					}
+				}
 			}
 		}
 		for fi := range sc.Faults {
